@@ -136,7 +136,9 @@ def run_case(case):
             else:
                 dev = "ok" if abs(float(e) - f_) <= 1e-6 * max(1.0, abs(float(e))) else "bad"
             if dev == "bad":
-                worst = "borderline" if borderline(bats) else "bad"
+                # with a negative capacity or inverted limits (outside the property's domain) the weights can cancel
+                # exactly, and the float sum is then rounding noise: only well-formed data is judged here
+                worst = "borderline" if borderline(bats) or not wf(bats) else "bad"
         rec = {"soc": enc(s), "cap": enc(c)}
         if k == "base":
             out.update(rec)
